@@ -226,9 +226,18 @@ def merge(O, N, path=(), strict_domain=False):
             return O
         N.md = {**O.md, **N.md}
         return N
+    if O.kind == 'seq' and N.kind == 'map' and N.dele:
+        # a deleting mapping replaces the list like any other deleting node (its keys are not positions)
+        if any(x.prio != N.prio for _, x in walk(N)) or any(x.prio > N.prio for _, x in walk(O)):
+            raise OutOfDomain('a deleting mapping onto a list, with priorities of their own on either side: whether the mapping keys are positions then is not specified')
+        removed = set()
+        filt(O, lambda rel, e: e.prio > nearest(N, rel).prio, removed=removed)
+        if O.ch or N.prio < O.prio:
+            raise OutOfDomain('a deleting mapping onto a list with protected elements: what the mapping keys mean then is not specified')
+        require_all_new(N, path, exceptions={path + r for r in removed} | {path})
+        N.md = {**O.md, **N.md}
+        return N
     if O.kind == 'seq' and N.kind == 'map':
-        if strict_domain and N.dele:
-            raise OutOfDomain('a deleting mapping addressing list indices: which indices survive the deletion is not specified')
         n = len(O.ch)
         if strict_domain and len({(k + n if isinstance(k, int) and k < 0 else k) for k in N.ch}) != len(N.ch):
             raise OutOfDomain('two keys of one mapping address the same list element')
